@@ -782,7 +782,10 @@ DropErr ==
    committed state, wherever the data currently sits. *)
 
 IsBtree(c) == Kind[c] \in {"btree", "btree_rc"}
-Live(c) == {k \in Keys : Present(logical[<<c, k>>])}
+\* what the iterator can see is what point reads see (commit overlay, log overlay, tree): for plain btree
+\* columns that is the latest committed state (LayerHandOver); for ref-counted ones a key whose count
+\* dropped to zero stays visible until the dereference is processed, exactly as for get (C07)
+Live(c) == {k \in Keys : Get(<<c, k>>) # 0}
 CurOthers == UNCHANGED <<hist, logical, calls, queue, nextCid, covl, lw, nextRid, logs, pool, nextLogId, rpos, lovl, cw,
                          lastEnacted, tabs, dtabs, flushedCq, applied, durable, mode, rcv, ncrash, naux,
                          lastRec, rdr>>
@@ -826,7 +829,7 @@ PrevCands == CASE cur.t = "end"    -> Live(cur.c)
                [] cur.t = "seeked" -> {x \in Live(cur.c) : x <= cur.k}
                [] cur.t = "at"     -> {x \in Live(cur.c) : x < cur.k}
                [] OTHER            -> {}
-CurResult(k) == <<k, logical[<<cur.c, k>>].v>>
+CurResult(k) == <<k, Get(<<cur.c, k>>)>>
 
 NextRes == IF NextCands = {} THEN <<>> ELSE CurResult(MinOf(NextCands))
 PrevRes == IF PrevCands = {} THEN <<>> ELSE CurResult(MaxOf(PrevCands))
